@@ -252,13 +252,12 @@ Section C02.
     ex (prologue k) (frame k (spec_init k zero) ++ en) tr = (RVal tt, frame k (spec_init k zero) ++ en, tr).
   Proof. destruct k as [| | ? [|] |]; reflexivity. Qed.
 
-  Lemma comprehension_correct k zero ps E tr vs tr' :
-    Forall wf_phrase ps -> lower_comprehension k zero ps = Some E ->
+  Lemma comprehension_correct k zero ps tr vs tr' :
+    Forall wf_phrase ps ->
     spec_comprehension k zero ps en tr = Some (vs, tr') ->
-    ev E en tr = (RVal vs, en, tr').
+    ev (lower_comprehension k zero ps) en tr = (RVal vs, en, tr').
   Proof.
-    intros Hw HL HS. unfold lower_comprehension in HL. destruct (forallb phrase_accepted ps); [|discriminate].
-    injection HL as <-. unfold spec_comprehension in HS.
+    intros Hw HS. unfold lower_comprehension. unfold spec_comprehension in HS.
     destruct (spec_nest ps (spec_inner k) en (spec_init k zero) tr) as [[st tr1]|] eqn:SN; [|discriminate].
     pose proof (nest_ok k ps (innermost k) (spec_inner k) Hw (inner_ok k) [] (spec_init k zero) tr st tr1 (Forall_nil _) SN) as B.
     cbn [app] in B.
@@ -333,27 +332,43 @@ Section C02.
     - intros tr0. rewrite ev_EVar, HL. now rewrite app_nil_r.
   Qed.
 
-  (* `for _ <- xs`: the compiler's output is rejected by Go; the documented meaning exists *)
-  Lemma blank_rejected k zero x c : lower_comprehension k zero [{| ph_key := None; ph_val := None; ph_x := x; ph_cond := c |}] = None.
-  Proof. reflexivity. Qed.
+  (* a blank loop variable: `[e for _ <- l]` evaluates e once per element, `{for _ <- l}` tells whether l is non-empty *)
+  Lemma blank_list_items p e v0 : ph_key p = None -> ph_val p = None -> ph_cond p = None ->
+    pev en e = Some (v0, []) ->
+    forall l acc tr, spec_items p (spec_inner (CList e)) en l (VList acc) tr = Some (Cont (VList (acc ++ map (fun _ => v0) l)), tr).
+  Proof. intros Hk Hv Hc He. induction l as [|[kv vv] t IH]; intros acc tr.
+    - rewrite spec_items_nil. cbn [map]. now rewrite app_nil_r.
+    - rewrite spec_items_cons. cbv zeta. unfold bind_kv, bind_opt. rewrite Hk, Hv, Hc. cbn [spec_inner]. rewrite He.
+      rewrite app_nil_r. rewrite IH. cbn [map]. now rewrite <- app_assoc. Qed.
+
+  Lemma blank_list e v0 l zero tr : pev en e = Some (v0, []) ->
+    spec_comprehension (CList e) zero [{| ph_key := None; ph_val := None; ph_x := EConst (VList l); ph_cond := None |}] en tr
+    = Some ([VList (map (fun _ => v0) l)], tr).
+  Proof. intros He. unfold spec_comprehension. cbn [spec_nest]. unfold spec_wrap. cbn [ph_x pev range_of spec_init].
+    rewrite app_nil_r.
+    rewrite (blank_list_items {| ph_key := None; ph_val := None; ph_x := EConst (VList l); ph_cond := None |} e v0 eq_refl eq_refl eq_refl He).
+    cbn [app]. f_equal. f_equal. f_equal. f_equal. clear. generalize 0. induction l; intros; cbn [index_from map]; f_equal; auto. Qed.
+
+  Lemma blank_wf x c : wf_phrase {| ph_key := None; ph_val := None; ph_x := x; ph_cond := c |}.
+  Proof. split; exact I. Qed.
 End C02.
 
 (* named instances, stated outside the section *)
-Lemma comprehension_list_correct : forall err_text self en elt zero ps E tr vs tr',
-  Forall wf_phrase ps -> lower_comprehension (CList elt) zero ps = Some E ->
-  spec_comprehension (CList elt) zero ps en tr = Some (vs, tr') -> ev err_text self E en tr = (RVal vs, en, tr').
+Lemma comprehension_list_correct : forall err_text self en elt zero ps tr vs tr',
+  Forall wf_phrase ps ->
+  spec_comprehension (CList elt) zero ps en tr = Some (vs, tr') -> ev err_text self (lower_comprehension (CList elt) zero ps) en tr = (RVal vs, en, tr').
 Proof. intros et self en elt. exact (comprehension_correct et self en (CList elt)). Qed.
-Lemma comprehension_map_correct : forall err_text self en ke ve zero ps E tr vs tr',
-  Forall wf_phrase ps -> lower_comprehension (CMap ke ve) zero ps = Some E ->
-  spec_comprehension (CMap ke ve) zero ps en tr = Some (vs, tr') -> ev err_text self E en tr = (RVal vs, en, tr').
+Lemma comprehension_map_correct : forall err_text self en ke ve zero ps tr vs tr',
+  Forall wf_phrase ps ->
+  spec_comprehension (CMap ke ve) zero ps en tr = Some (vs, tr') -> ev err_text self (lower_comprehension (CMap ke ve) zero ps) en tr = (RVal vs, en, tr').
 Proof. intros et self en ke ve. exact (comprehension_correct et self en (CMap ke ve)). Qed.
-Lemma comprehension_select_correct : forall err_text self en elt two zero ps E tr vs tr',
-  Forall wf_phrase ps -> lower_comprehension (CSelect elt two) zero ps = Some E ->
-  spec_comprehension (CSelect elt two) zero ps en tr = Some (vs, tr') -> ev err_text self E en tr = (RVal vs, en, tr').
+Lemma comprehension_select_correct : forall err_text self en elt two zero ps tr vs tr',
+  Forall wf_phrase ps ->
+  spec_comprehension (CSelect elt two) zero ps en tr = Some (vs, tr') -> ev err_text self (lower_comprehension (CSelect elt two) zero ps) en tr = (RVal vs, en, tr').
 Proof. intros et self en elt two. exact (comprehension_correct et self en (CSelect elt two)). Qed.
-Lemma comprehension_exists_correct : forall err_text self en zero ps E tr vs tr',
-  Forall wf_phrase ps -> lower_comprehension CExists zero ps = Some E ->
-  spec_comprehension CExists zero ps en tr = Some (vs, tr') -> ev err_text self E en tr = (RVal vs, en, tr').
+Lemma comprehension_exists_correct : forall err_text self en zero ps tr vs tr',
+  Forall wf_phrase ps ->
+  spec_comprehension CExists zero ps en tr = Some (vs, tr') -> ev err_text self (lower_comprehension CExists zero ps) en tr = (RVal vs, en, tr').
 Proof. intros et self en. exact (comprehension_correct et self en CExists). Qed.
 Lemma last_phrase_outermost : forall ps p s F,
   nest (ps ++ [p]) s = wrap p (nest ps s) /\ spec_nest (ps ++ [p]) F = spec_wrap p (spec_nest ps F).
